@@ -401,7 +401,7 @@ fn portable(p: &mut Program) {
     p.normalise();
 }
 
-fn c_table_source(header: &str, exprs: &[String], cpp: bool) -> String {
+pub fn c_table_source(header: &str, exprs: &[String], cpp: bool) -> String {
     let mut s = format!("#include \"{header}\"\n");
     if !cpp {
         s.push_str("#define offsetof(t, d) __builtin_offsetof(t, d)\n");
@@ -441,7 +441,7 @@ fn parse_ir_table(ir: &str) -> Option<Vec<u64>> {
     Some(v)
 }
 
-fn clang_table(dir: &std::path::Path, src: &str, target: &str, cpp: bool) -> Result<Vec<u64>, String> {
+pub fn clang_table(dir: &std::path::Path, src: &str, target: &str, cpp: bool) -> Result<Vec<u64>, String> {
     let mut cmd = std::process::Command::new(tools::clang_bin());
     cmd.args(["-S", "-emit-llvm", "-w", "-o", "-"]).arg(format!("--target={target}"));
     if cpp {
